@@ -63,7 +63,8 @@ fn pick_year(r: &mut Rng) -> i64 {
 }
 
 fn pick_tod_s(r: &mut Rng) -> i64 {
-    match r.below(8) {
+    match r.below(10) {
+        8 | 9 => (super::calendar::tod_field_pattern(r) / 1_000_000_000) as i64,
         0 => 0,
         1 => 86399,
         2 => 43200,
